@@ -216,6 +216,8 @@ def run(P, R, tier):
     except AnalysisError:
         pass
     for o in sub.obs:
+        if o.rule == 'C12.e':
+            R._add('C20.d', (o.path, o.site.split('::')[-1]), None, o.status, 'switching the active geometry afterwards (set_geometry) must find the other columns\' bounds filtered like the partitions: ' + o.detail, construct=o.construct)
         if o.rule == 'C12.f':
             R._add('C20.d', (o.path, o.site.split('::')[-1]), None, o.status, 'geometry= of read_parquet_dask decides which column\'s bounds are filtered and reported: ' + o.detail, construct=o.construct)
     # ---------------------------------------------------------------- C20.e
